@@ -48,7 +48,7 @@ PROPS['C19'] = dict(
          '0xffffffff: L message = hash(challenge), raw login = hash(challenge+1 mod 2^32), client enters raw mode after hash(challenge-1). '
          'non-trivial iff password non-empty (unit) / all frames observed (system, client); distinct = hash of choice tape',
     engine_text='rapidcheck over choice tapes; unit shape + simnet (real iodine + iodined); passwords via -P or the environment, with % sequences; lost raw login replies (client repeats, server must answer again); password typed at the prompt (read_password on a replaced stdin); cut raw login after a complete one',
-    bounds='password <= 40 bytes, 32-bit challenges sampled (boundary values always included)',
+    bounds='password <= 40 bytes, 32-bit challenges sampled (boundary values always included) Round 5: server acceptance case (2..7 login attempts per session; only the documented digest is accepted); -P and environment both set.',
     trusted_base=TB_SIM + ['refmd5 self-tested against the RFC 1321 vectors at start-up'],
     assumptions=AS_SIM + ['MD5 collisions (2^-128) ignored'],
 )
@@ -106,7 +106,7 @@ PROPS['C08'] = dict(
     exhaustive_text='every L in 100..255 x every domain length 3..min(128,L-24) x 4 codecs x payload lengths '
                     '{1,2,block-1,block,block+1,cap-1,cap,cap+1,2048}; header 1 or 5 (both in thorough)',
     engine_text='exhaustive grid + rapidcheck, unit shape; the real clients emitted names are additionally monitored in the simnet properties (C10 monitor)',
-    bounds='payload <= 2048 bytes',
+    bounds='payload <= 2048 bytes Round 5: client case against a scripted server refusing the codec switch; system case judges end-to-end extraction with last fragments of 1 and 2 bytes.',
     trusted_base=TB_COMMON + ['ref/refdns.cc strict parser', 'ref/refmisc.cc codecs and label-wise matcher', 'glue/unit_api.c'],
     assumptions=['alphabet index order of protocol 0x00000502 transcribed into ref/refmisc.cc (signature C08:refcodec only)'],
 )
@@ -147,7 +147,7 @@ PROPS['C02'] = dict(
          'in one such case of three an application keeps offering 2..8 packets per second on the client tun device, the server tun device or both throughout (classes busy-*). '
          'non-trivial iff (a) >=1 multi-fragment delivery and >=1 idle gap > 4.5 s, (b) faults hit and >=6 deliveries',
     engine_text='rapidcheck over choice tapes; simnet (virtual clock owned by the harness turns liveness into bounded-horizon safety)',
-    bounds='<= 40 offers, <= 40 virtual s of faults; time bounds are in virtual time',
+    bounds='<= 40 offers, <= 40 virtual s of faults; time bounds are in virtual time Round 5: bulk upload of 62..75 s before the paced offers in half of the upstream one-way cases; boundary-size packets (last fragment of 1, 2, F-1, F bytes).',
     trusted_base=TB_SIM,
     assumptions=AS_SIM + ['"fits in 16 fragments" judged conservatively: compressed size <= 12 x Base32 fragment capacity'],
 )
@@ -169,7 +169,7 @@ PROPS['C09'] = dict(
     exhaustive_text='thorough: every length 2..4096 x 5 contents x all 210 configurations; quick: lengths 2..320 + windows at '
                     'multiples of 252 + every 5th length, 2 contents',
     engine_text='complete length sweeps + rapidcheck on the glue pair (static write_dns of iodined.c -> static read_dns_withq of client.c)',
-    bounds='payload 2..4096 bytes',
+    bounds='payload 2..4096 bytes Round 5: fourth query name with 63-character labels.',
     trusted_base=TB_COMMON + ['glue/glue_server.c and glue/glue_client.c: textual inclusion of iodined.c / client.c; depend on the '
                               'signatures of write_dns and read_dns_withq', 'sim capture/feed of sendto/recvfrom'],
     assumptions=['Lmax floors (100 bytes for one hostname, 1000 otherwise) and the table of client buffer capacities per (type, codec, caller buffer) used by the fits-but-not-delivered oracle are calibrated on the unchanged tree'],
@@ -190,7 +190,7 @@ PROPS['C15'] = dict(
          'last-fragment flag is set exactly on the fragment that completes the compressed packet the server read from its tun device. '
          'non-trivial iff a packet needed >= 3 fragments and a size was set by an accepted N request',
     engine_text='rapidcheck over choice tapes; simnet hosting the real iodined; scripted sessions (refproto); ASan+UBSan; up to 2 sessions with client-to-client packets',
-    bounds='<= 2 sessions, <= 60 actions, packets <= 20000 bytes; numbering judged for packets that fit 16 fragments',
+    bounds='<= 2 sessions, <= 60 actions, packets <= 20000 bytes; numbering judged for packets that fit 16 fragments Round 5: new session on a recycled slot repeats a ping name of the earlier session.',
     trusted_base=TB_SIM, assumptions=AS_SIM + ['zlib level-9 output is deterministic (the harness recomputes the compressed form of every packet the server read)'],
 )
 PROPS['C14'] = dict(
@@ -203,7 +203,7 @@ PROPS['C14'] = dict(
          'questions per session are unanswered. non-trivial iff a remembered duplicate of a pending query was answered together with the '
          'original, or a pending query was re-delivered while two queries were held',
     engine_text='rapidcheck over choice tapes; simnet hosting the real iodined; scripted sessions (refproto); wire monitor; handshake-type requests mid-session',
-    bounds='<= 3 sessions, <= 60 actions', trusted_base=TB_SIM, assumptions=AS_SIM + ['without -b (forwarded replies are C20)'],
+    bounds='<= 3 sessions, <= 60 actions Round 5: infrastructure queries (ns/www A, NS, look-alikes).', trusted_base=TB_SIM, assumptions=AS_SIM + ['without -b (forwarded replies are C20)'],
 )
 PROPS['C16'] = dict(
     bin='c16', sources=['props/c16.cc'] + SIMSRC2, unit_objs=UNIT, images=IMGS, engine='rc',
@@ -263,7 +263,7 @@ PROPS['C20'] = dict(
          '> 16 outstanding, an id was reused and an unmatched reply occurred (system) / > 16 puts (unit)',
     exhaustive_text='fw_query_put/get: every prefix of 0..20 distinct-id puts x every sequence of 5 operations over put(id 0..2, requester 0..1) / get(id 0..3) (2.1 M sequences)',
     engine_text='rapidcheck over choice tapes + bounded exhaustive enumeration; simnet hosting the real iodined with -b; unit shape for fw_query.c; 1 reply in 5 padded with TXT records to 512..65000 bytes (must arrive unchanged)',
-    bounds='<= 20 requesters, <= 80 actions', trusted_base=TB_SIM, assumptions=AS_SIM,
+    bounds='<= 20 requesters, <= 80 actions Round 5: names of 200..253 characters; header-only replies.', trusted_base=TB_SIM, assumptions=AS_SIM,
 )
 
 PROPS['C04'] = dict(
@@ -301,7 +301,7 @@ PROPS['C13'] = dict(
          'decimal integer 201..1500; no control characters. non-trivial iff the login step was reached, the reply parses as four fields and >= 1 '
          'field is not a plain valid value. 1 case in 3 is a unit case: tun_setip / tun_setmtu are called directly with generated address strings, prefix lengths and MTUs, in the Linux flavour and in a second build of tun.c with the BSD command templates (server address on the command line, route add net/prefix); same word oracle (plus quad/prefix)',
     engine_text='rapidcheck over choice tapes; simnet hosting the real iodine client; scripted server (refproto); system() observed at the shim; address fields incl. four valid decimal fields with 1..3 dots replaced by another single byte',
-    bounds='login replies <= 400 bytes', trusted_base=TB_SIM + ['vbuild.py compiles tun.c a second time with -DFREEBSD (objcopy-renamed bsd_tun_setip / bsd_tun_setmtu)'],
+    bounds='login replies <= 400 bytes Round 5: integer fields valid only modulo 2^16 / 2^32.', trusted_base=TB_SIM + ['vbuild.py compiles tun.c a second time with -DFREEBSD (objcopy-renamed bsd_tun_setip / bsd_tun_setmtu)'],
     assumptions=AS_SIM + ['system cases run the Linux build of the client; the BSD command templates (server address on the command line, route add) are exercised at unit level only; Windows and Darwin branches are not compiled'],
 )
 
@@ -323,7 +323,7 @@ PROPS['C10'] = dict(
          'name / auxiliary answer (a, b) or > 20 client queries (c)',
     exhaustive_text='write_dns: 7 record types x 5 codec letters x 3 query-name lengths x every payload length 1..4096 (thorough) or 1..300 + windows at multiples of 252 + 1/7 sample (quick)',
     engine_text='rapidcheck over choice tapes + length sweeps; glue pair, simnet (real iodined, real iodine), strict reference parser ref/refdns.cc; every answer record under the tunnel domain carries the query type (A may be answered by CNAME)',
-    bounds='payload <= 4096, names <= 253 characters', trusted_base=TB_SIM + ['glue/glue_server.c (signature of write_dns)'],
+    bounds='payload <= 4096, names <= 253 characters Round 5: fourth query name with 63-character labels.', trusted_base=TB_SIM + ['glue/glue_server.c (signature of write_dns)'],
     assumptions=AS_SIM + ['queries whose labels contain "." or NUL are outside the property (iodine represents names as dotted C strings)'],
 )
 
@@ -344,7 +344,7 @@ PROPS['C05'] = dict(
          'may legitimately act for an honest session (its own address; a correct raw login; anything when source checking is off) are excluded by construction. '
          'non-trivial iff the server answered a hostile source, or a raw frame / short tun packet was processed',
     engine_text='rapidcheck over choice tapes (and the same case function under libFuzzer, see fuzz tier); simnet hosting the real iodined; ASan+UBSan; bare command letters from session addresses',
-    bounds='<= 3 honest + 2 sacrificial sessions, <= 24 hostile steps, <= 40 virtual s', trusted_base=TB_SIM,
+    bounds='<= 3 honest + 2 sacrificial sessions, <= 24 hostile steps, <= 40 virtual s Round 5: own-session data queries with arbitrary payload bytes after a codec switch.', trusted_base=TB_SIM,
     assumptions=AS_SIM + ['uninitialised reads are not detectable (no MSan-instrumented C++ runtime here)'],
 )
 
@@ -371,7 +371,7 @@ PROPS['C06'] = dict(
          'userid are never written to the tun device (controls with matching id and character are counted when delivered). non-trivial iff a hostile answer hit a '
          'step after the login, or an MX/SRV answer had >= 17 records, or an RDLENGTH lied',
     engine_text='rapidcheck over choice tapes + libFuzzer; simnet hosting the real iodine client; scripted reference server; ASan+UBSan; 1 case in 6: half-matching handshake replies (right id under another step\'s name, or right name under a wrong id, valid but different payload) in front of honest answers: the handshake must complete with the honest values',
-    bounds='<= 150 virtual s, <= 400 hostile answers per case', trusted_base=TB_SIM,
+    bounds='<= 150 virtual s, <= 400 hostile answers per case Round 5: raw frames cut to 1..3 bytes (or inside the body) with the rest of a data frame as receive-buffer residue.', trusted_base=TB_SIM,
     assumptions=AS_SIM + ['uninitialised reads are not detectable (no MSan-instrumented C++ runtime here)'],
 )
 
